@@ -240,6 +240,36 @@ def gen(rng, tier):
     for _ in range(40):
         out.append(Case("pay.create_test %d %d 1 1" % (rng.choice([8192, 65535, -1, 1 << 20]), rng.randrange(16, 256)),
                         kind="fidelity-create", decides=False, nontrivial=False))
+    out += gen_alias(rng, thorough, list(zip(ls, pk)), pids, ptss)
+    return out
+
+
+def gen_alias(rng, thorough, packets, pids, ptss):
+    """arguments that share memory with the object or with an earlier call (notes/aliasing.md)"""
+    out = []
+    # SetPayload with a view of the packet's OWN payload as argument: the whole payload (nothing may change) and, on a
+    # packet that already has an adaptation field, a suffix of it (the stuffing grows in front, the bytes stay where
+    # they are).  NOT generated, because the unchanged tree destroys the argument before copying it (notes/aliasing.md,
+    # A1): a proper prefix, and any shorter part on a payload-only packet (initAdaptationField fills the packet).
+    for l, (p, wf) in packets:
+        afc = l["hdr"][6]
+        if afc != 2 and (rng.random() < 0.3 or thorough):
+            n = len(l["payload"])
+            out.append(Case("pay.setown %s 0 %d" % (hx(p), n), kind="set-own-whole", theorem="C02_set_payload_ok" if n else "C02_set_payload_empty"))
+            if n > 1 and afc == 3:
+                j = rng.randrange(1, n)
+                out.append(Case("pay.setown %s %d %d" % (hx(p), j, n), kind="set-own-suffix", theorem="C02_set_payload_ok"))
+    # ONE option slice with spare capacity used for Create(pid, opts[:k]...), Create(pid, opts...), Create(pid, opts[:k]...):
+    # a caller that builds variants of a packet from a common option list (pay.create2)
+    for _ in range(150 if not thorough else 3000):
+        n = rng.randrange(1, 6)
+        opts = [rng.randrange(6) for _ in range(n)]
+        if rng.random() < 0.4:
+            opts.insert(rng.randrange(n + 1), (7, ptss()))
+        k = rng.randrange(0, len(opts) + 1)
+        line = "pay.create2 %d [ %s ] %d" % (pids(), " ".join(opt_wire(o) for o in opts), k)
+        pes = any(not isinstance(o, int) for o in opts)
+        out.append(Case(line, kind="create-twice-pes" if pes else "create-twice", theorem="C02_create_with_pes" if pes else "C02_create_flag_options"))
     return out
 
 
